@@ -962,7 +962,13 @@ func _panic(n *node) {
 	value := genValue(n.child[1])
 
 	n.exec = func(f *frame) bltn {
-		panic(value(f))
+		v := value(f)
+		if !v.IsValid() || !v.CanInterface() {
+			panic(v)
+		}
+		// Panic with the value itself, as seen when the statement is executed, so that
+		// recover returns it, and Eval reports it, with its own type.
+		panic(v.Interface())
 	}
 }
 
